@@ -153,7 +153,7 @@ public:
     }
 
     OutputMemoryStream(std::vector<uint8_t>& buffer)
-    : buffer_(&buffer[0]), size_(buffer.size()) {
+    : buffer_(buffer.empty() ? 0 : &buffer[0]), size_(buffer.size()) {
     }
 
     template <typename T>
